@@ -47,6 +47,9 @@ RULES = {
                "hand-written wrapper fn whose parameters are the variables it reads; flagged weaker than function extraction",
     "R-auto-helper": "a function called by contracted code but not listed in the unit is pulled in verbatim; a single "
                      "side-effect-free expression body gets `ensures r == <expr>` (R-auto-ensures), anything else no contract",
+    "R-opaque": "the initializer expression of a `let` statement named by a directive is replaced by a call to an "
+                "assumed-contract function declared in the unit; the dropped expression is pinned (whitespace-normalised "
+                "text must equal the one in the unit, else the run is undecided) and is listed as unverified",
     "R-wildparam": "a `_: T` function parameter is given a fresh unused name (Verus accepts identifier patterns only)",
     "R-self": "`Self::` in inherent-emitted trait methods left as is",
 }
@@ -481,6 +484,29 @@ def splice_fn(text, spec):
             i += 1
         edits.append((hs, hs, " -> (%s: %s)\n%s\n{ " % (rname, rty, txt.rstrip())))
         edits.append((i, i, " }"))
+    for k, rx, repl, expect in spec.get("opaques", []):
+        # R-opaque: the initializer of the k-th `let` statement matching rx is replaced by a call to an
+        # assumed-contract function; the dropped expression must still be the one the unit was written for
+        hits = [m for m in re.finditer(rx, msk[body + 1:end])]
+        if len(hits) < k:
+            raise ExtractError("lost anchor: opaque /%s/ #%d not found" % (rx, k))
+        st = body + 1 + hits[k - 1].start()
+        eq = msk.find("=", st)
+        i, depth = eq + 1, 0
+        while i < end:
+            ch = msk[i]
+            if ch in "([{":
+                depth += 1
+            elif ch in ")]}":
+                depth -= 1
+            elif ch == ";" and depth == 0:
+                break
+            i += 1
+        dropped = re.sub(r"\s+", "", text[eq + 1:i])
+        if dropped != re.sub(r"\s+", "", expect):
+            raise ExtractError("lost anchor: the expression left unverified by R-opaque changed: `%s`" % dropped[:200])
+        spec.setdefault("dropped", []).append(dropped)
+        edits.append((eq + 1, i, " " + repl))
     if spec.get("rename"):
         m = re.search(r"\bfn\s+(\w+)", msk)
         edits.append((m.start(1), m.end(1), spec["rename"]))
@@ -657,7 +683,7 @@ def build_unit(template_path, repo, canary=False, helpers=None, nodecr=None):
                 rename = am.group(1)
                 toks = toks[:am.start()]
             relfile, path = toks.split(None, 1)
-            spec = dict(ret=None, sig="", loops={}, ats=[], rename=rename, closures=[], iters={})
+            spec = dict(ret=None, sig="", loops={}, ats=[], rename=rename, closures=[], iters={}, opaques=[])
             i += 1
             section = None
             buf = []
@@ -674,6 +700,8 @@ def build_unit(template_path, repo, canary=False, helpers=None, nodecr=None):
                     spec["ats"].append((section[1], section[2], txt, section[3]))
                 elif section[0] == "closure":
                     spec["closures"].append((section[1], section[2], section[3], section[4], txt))
+                elif section[0] == "opaque":
+                    spec["opaques"].append((section[1], section[2], section[3], txt))
             while i < len(lines):
                 t = lines[i].strip()
                 if t.startswith("//@"):
@@ -699,6 +727,11 @@ def build_unit(template_path, repo, canary=False, helpers=None, nodecr=None):
                         if not mm:
                             raise ExtractError("bad directive: " + dd)
                         section = ("closure", int(mm.group(1)), mm.group(2), mm.group(3), mm.group(4))
+                    elif dd.startswith("opaque "):
+                        mm = re.match(r"opaque\s+(\d+)\s+/(.*)/\s+(.+)$", dd)
+                        if not mm:
+                            raise ExtractError("bad directive: " + dd)
+                        section = ("opaque", int(mm.group(1)), mm.group(2), mm.group(3))
                     elif dd.startswith("at ") or dd.startswith("after "):
                         mm = re.match(r"(at|after)\s+(\d+)\s+/(.*)/\s*$", dd)
                         if not mm:
@@ -731,12 +764,15 @@ def build_unit(template_path, repo, canary=False, helpers=None, nodecr=None):
                 ctxt = splice_fn(txt, cspec)
             txt = plain
             rules.add("R-sig")
+            if spec["opaques"]:
+                rules.add("R-opaque")
             u.clauses += sum(len(re.findall(r",\s*$", t, re.M)) for t in
                              [spec["sig"]] + list(spec["loops"].values()))
             lo = cur_line()
             out.append(txt)
             u.items.append(dict(kind="fn", file=relfile, path=path, name=rename or name, props=props,
                                 sha_before=sha(raw), sha_after=sha(txt), rules=sorted(rules),
+                                unverified_expressions=sorted(set(spec.get("dropped", []))),
                                 line_lo=lo, line_hi=cur_line() - 1, contracted=True))
             for hname in helpers.get(len([x for x in u.items if x["kind"] == "fn" and not x.get("canary") and not x.get("auto")]) - 1, []):
                 htxt, hrules, pure = auto_helper(repo, relfile, path, hname, nopub)
